@@ -42,15 +42,20 @@ var verifC13Src = []string{
 	// a set operation evaluated by the workers of a scan inside the recursive term of a recursive query
 	// (they share the query's recursion counter)
 	"with recursive r (n) as (select 1 union all select n + 1 from r where n < 2 and n in (select z.k from t as z where z.k in (select 1 union select 0))) select n from r",
+	// pooled helpers of the string functions, also after an earlier statement in which they failed
+	"select id, format('%s-%05d|%s', id, k, 'x'), datetime_format(datetime(id), '%Y'), number_format(k, 2) from t",
+	// a LATERAL join whose left side is itself a join result (3 + 2 columns): the workers extend its header
+	"select w.id, s.c from (w inner join o on w.k >= o.k - 1) cross join lateral (select count(*) as c from t as z where z.k = w.k) s",
 }
 var verifC13Queries []parser.SelectQuery
 var verifC13Decls []parser.Statement
-var verifC13Prelude parser.SelectQuery
+var verifC13Prelude, verifC13Prelude2 parser.SelectQuery
 
 func VerifC13Setup() {
 	verifC13Decls = verifParse(`declare pick aggregate (list, @a, @b) as begin return @b; end;
 		declare inc function (@v) as begin var @w := @v + 1; return @w; end;`)
 	verifC13Prelude = verifParse("select count(distinct k), listagg(distinct k, ',') from t")[0].(parser.SelectQuery)
+	verifC13Prelude2 = verifParse("select format('%06d|%s', 1), datetime_format(null, '%Y'), number_format('x', 'y')")[0].(parser.SelectQuery)
 	for _, s := range verifC13Src {
 		q := verifParse(s)[0].(parser.SelectQuery)
 		verifC13Queries = append(verifC13Queries, q)
@@ -87,11 +92,25 @@ func VerifC13ParallelQueries() {
 	}
 	verifTempTable(scope, "t", []string{"id", "k"}, rows)
 	verifTempTable(scope, "o", []string{"id", "k"}, rows[:1])
+	wrows := make([][]value.Primary, len(rows))
+	for i := range wrows {
+		wrows[i] = []value.Primary{rows[i][0], rows[i][1], value.NewInteger(7)}
+	}
+	verifTempTable(scope, "w", []string{"id", "k", "x"}, wrows)
 	GetGoroutineManager().MinimumRequiredPerCore = 1
-	if verifChoice("prelude", 2) == 1 {
+	preludes := 2
+	if qi == 19 {
+		preludes = 3 // the failing prelude matters to the statement that uses the same helpers
+	}
+	switch verifChoice("prelude", preludes) {
+	case 1:
 		// an earlier statement of the session that uses the pooled key buffers (DISTINCT aggregates)
 		_, e := Select(verifCtx(), scope, verifC13Prelude)
 		verifAssert("the prelude runs", e == nil)
+	case 2:
+		// an earlier statement of the session in which a string function failed
+		_, e := Select(verifCtx(), scope, verifC13Prelude2)
+		verifAssert("the failing prelude fails", e != nil)
 	}
 	verifPreemptions(verifBound(0, 1))
 	if qi == 18 {
